@@ -186,6 +186,11 @@ def build_ondisk(path: Path, df, meta, feature_columns=None, spectrum_columns=No
             metadata_columns.append(c)
     col_types = TabularDataReader.from_path(path).get_column_types()
     all_cols = TabularDataReader.from_path(path).get_column_names()
+    if list(all_cols) != list(df.columns):
+        from core import Violation
+
+        raise Violation("reader-column-names", f"mokapot's reader reports columns {list(all_cols)[:6]}... for a file whose header is "
+                                               f"{list(df.columns)[:6]}... (stale per-path state?)")
     metadata_column_types = [col_types[all_cols.index(c)] for c in metadata_columns]
     spectra_df = df[spectrum_columns + ["Label"]].copy()
     lab = spectra_df["Label"]
